@@ -153,6 +153,7 @@ type simHist struct {
 	toolRuns int
 
 	shapeOverride map[int]int
+	curSubmitting *simEntry
 	httpNext int
 	httpSubs []*simHTTPSub          // in flight for the coming round
 	httpSent []int                  // ids submitted so far (for resubmissions)
@@ -393,6 +394,10 @@ func (h *simHist) run(t *rapid.T) error {
 		return fmt.Errorf("LoadLog failed right after CreateLog: %v", err)
 	}
 	h.in = in
+	if h.opts.Dedup && h.pending == nil {
+		h.resetVolatile()
+		h.must = map[string]simAck{}
+	}
 	if err := h.setRoots(); err != nil {
 		return err
 	}
@@ -425,7 +430,7 @@ func (h *simHist) run(t *rapid.T) error {
 		}
 		h.in.p.begin("submit", subFaults)
 		var innerRes *simRoundResult
-		if h.opts.RoundDuringSubmit && !h.opts.Dedup && rapid.IntRange(0, 2).Draw(t, "roundDuringSubmit") == 0 {
+		if h.opts.RoundDuringSubmit && rapid.IntRange(0, 2).Draw(t, "roundDuringSubmit") == 0 {
 			// entries with fresh issuers make the submission perform storage operations (yield points)
 			for k := rapid.IntRange(1, 3).Draw(t, "freshIssuerEntries"); k > 0; k-- {
 				if h.shapeOverride == nil {
@@ -436,6 +441,7 @@ func (h *simHist) run(t *rapid.T) error {
 				h.nextID++
 			}
 			at := rapid.IntRange(1, 6).Draw(t, "roundAtSubmitOp")
+			twin := rapid.Bool().Draw(t, "twinSubmission")
 			count := 0
 			in0 := h.in
 			s.w.yield = func(p *simProc, op *simOp) {
@@ -444,16 +450,35 @@ func (h *simHist) run(t *rapid.T) error {
 				}
 				count++
 				if count == at {
+					if twin && h.curSubmitting != nil {
+						// an equal submission arrives while this one is still uploading its issuers
+						// (the same entry submitted with a chain that names no issuers: any submission with issuers
+						// would, in a real schedule, wait for the issuer upload in flight to finish)
+						twinP := *h.curSubmitting.P
+						twinP.Issuers = nil
+						h.submit(simInlineCtx(context.Background()), &simEntry{ID: h.curSubmitting.ID, Shape: "twin-without-issuers", P: &twinP})
+						h.st.descf("round %d: an equal submission of entry %d arrived during %s %s of the first one", r, h.curSubmitting.ID, op.Kind, op.Class)
+					}
 					s.w.clock += 7
+					if h.opts.Dedup {
+						h.inSeq, h.pending = h.pending, map[string]bool{}
+						h.snapMust = append(h.snapMust, copyMust(h.must))
+						h.snaps = append(h.snaps, s.w.cacheSnapshot())
+					}
 					innerRes = s.roundCtx(simInlineCtx(context.Background()), in0, nil)
+					if h.opts.Dedup {
+						h.inSeq = map[string]bool{}
+					}
 					h.st.RoundsInsideSubmit++
 					h.st.descf("round %d: a whole sequencing round ran inside %s %s of a submission: pool=%d acks=%d", r, op.Kind, op.Class, innerRes.PoolSize, len(innerRes.Acks))
 				}
 			}
 		}
 		for _, e := range entries {
+			h.curSubmitting = e
 			h.submit(context.Background(), e)
 		}
+		h.curSubmitting = nil
 		s.w.yield = nil
 		if innerRes != nil {
 			h.st.Rounds++
@@ -550,14 +575,12 @@ func (h *simHist) run(t *rapid.T) error {
 				h.scts = map[string][]byte{}
 			}
 			for k, b := range scts {
-				if prev, ok := h.scts[k]; ok && h.opts.Dedup {
-					if _, intact := h.must[k]; intact && !bytes.Equal(prev, b) {
-						return fmt.Errorf("resubmission of the same chain returned a different SCT while the cache was intact:\n first %s\n later %s", prev, b)
-					}
+				// identical acknowledgements (guaranteed by the dedup oracle while the cache is intact) must
+				// come with byte-identical SCTs: the signature is deterministic
+				if prev, ok := h.scts[k]; ok && !bytes.Equal(prev, b) {
+					return fmt.Errorf("two SCTs for the same entry, index and timestamp differ:\n first %s\n later %s", prev, b)
 				}
-				if _, ok := h.scts[k]; !ok || !h.opts.Dedup {
-					h.scts[k] = b
-				}
+				h.scts[k] = b
 			}
 		}
 		if h.opts.Dedup {
